@@ -265,11 +265,21 @@ fn check_arc_sector(ctx: &mut Ctx, tl: Point, d: u32, start: f32, sweep: f32) {
     let ring: FastSet<(i32, i32)> = cset.difference(&inner).copied().collect();
     let sector = set_of(Sector::new(tl, d, start.deg(), sweep.deg()).points(), budget);
     let arc = set_of(Arc::new(tl, d, start.deg(), sweep.deg()).points(), budget);
+    // the sector's other description of itself: contains() over the circle's bounding box
+    let sector_shape = Sector::new(tl, d, start.deg(), sweep.deg());
+    let mut sector_contains: FastSet<(i32, i32)> = FastSet::default();
+    for y in tl.y - 1..tl.y + d as i32 + 1 {
+        for x in tl.x - 1..tl.x + d as i32 + 1 {
+            if ContainsPoint::contains(&sector_shape, Point::new(x, y)) {
+                sector_contains.insert((x, y));
+            }
+        }
+    }
     let case = || format!("top_left ({},{}) diameter {} start {} deg sweep {} deg", tl.x, tl.y, d, start, sweep);
     // centre in pixel-index coordinates
     let (cx, cy) = (tl.x as f64 + (d as f64 - 1.0) / 2.0, tl.y as f64 + (d as f64 - 1.0) / 2.0);
     let (s, w) = (start as f64, sweep as f64);
-    'shapes: for (name, got, universe) in [("sector", &sector, &cset), ("arc", &arc, &ring)] {
+    'shapes: for (name, got, universe) in [("sector", &sector, &cset), ("sector-contains", &sector_contains, &cset), ("arc", &arc, &ring)] {
         if let Some(p) = got.iter().find(|p| !universe.contains(p)) {
             ctx.violation(format!("{}|point-outside-{}", name, if name == "arc" { "one-pixel-ring" } else { "circle" }), case, || format!("{:?}", p));
             continue 'shapes;
@@ -288,7 +298,10 @@ fn check_arc_sector(ctx: &mut Ctx, tl: Point, d: u32, start: f32, sweep: f32) {
                 continue 'shapes;
             }
             if !want && has {
-                ctx.violation(format!("{}|point-outside-sweep-included{}", name, if w.abs() < 1.0 && dist_point_ray(s + 180.0, dx, dy) <= 1.0 { "|sweep-below-1-degree-draws-opposite-radius" } else { "" }), case, || format!("{:?} (angle {:.2} deg) is outside the sweep and more than 1.5 px from both radial boundaries", p, theta));
+                // (the recorded finding about sweeps below 1 degree shows in points() and in contains() alike:
+                // one signature for both views of the sector)
+                let known_cause = w.abs() < 1.0 && dist_point_ray(s + 180.0, dx, dy) <= 1.0;
+                ctx.violation(format!("{}|point-outside-sweep-included{}", if known_cause { name.trim_end_matches("-contains") } else { name }, if known_cause { "|sweep-below-1-degree-draws-opposite-radius" } else { "" }), case, || format!("{:?} (angle {:.2} deg) is outside the sweep and more than 1.5 px from both radial boundaries", p, theta));
                 continue 'shapes;
             }
         }
